@@ -17,7 +17,7 @@ type pollQueue struct {
 
 func newPollQueue() *pollQueue {
 	return &pollQueue{
-		ready: make(chan struct{}),
+		ready: make(chan struct{}, 1),
 	}
 }
 
@@ -31,12 +31,21 @@ func (pq *pollQueue) poll(pollTimeout time.Duration) []*parser.Packet {
 	}
 	verifhook.Hit("pollQueue.poll:between-check-and-wait")
 
-	select {
-	case <-pq.ready:
-		packets = pq.get()
-	case <-time.After(pollTimeout):
+	// The ready channel has a buffer of 1 so that a signal sent by `add` between
+	// the emptiness check above and the select below is not lost. A leftover signal
+	// (its packets were already taken) must not end the poll: re-check and keep waiting.
+	timeout := time.After(pollTimeout)
+	for {
+		select {
+		case <-pq.ready:
+			packets = pq.get()
+			if len(packets) > 0 {
+				return packets
+			}
+		case <-timeout:
+			return packets
+		}
 	}
-	return packets
 }
 
 // add a packet to the queue and signal the other goroutine (if any).
